@@ -144,19 +144,60 @@ def _scan_toplevel(ctx, repo, cg, mod, node, where, cls=None):
             ctx.ob('R20.4', f'toplevel-instance:{mod.name}:{tname}', loc,
                    f'{where}: `{tname} = {src(v)}` is not a shared instance of a class with instance state', (not stateful) or tuple_based,
                    f'{target_cls.qname} has instance state: a process-wide instance makes results depend on earlier calls / other threads')
-    if isinstance(v, (ast.List, ast.Dict, ast.Set)) and cls is not None:
-        # class-level mutable container: must never be mutated through the attribute
+    if isinstance(v, (ast.List, ast.Dict, ast.Set)) and cls is None and tname.isidentifier() and tname != '__all__':
+        # module-level mutable container: never mutated by a function (directly, through `module.NAME`, or through a local alias)
+        MUT = ('append', 'extend', 'insert', 'pop', 'remove', 'clear', 'update', 'setdefault', 'sort', 'reverse', 'add', 'discard', 'popitem')
         muts = []
         for f in repo.funcs.values():
+            def refers(e):
+                if isinstance(e, ast.Name) and e.id == tname:
+                    if f.mod is mod:
+                        return True
+                    imp = f.mod.imports.get(tname)
+                    return bool(imp) and imp[0] == 'object' and imp[1] == mod.name
+                if isinstance(e, ast.Attribute) and e.attr == tname and isinstance(e.value, ast.Name):
+                    imp = f.mod.imports.get(e.value.id)
+                    return bool(imp) and imp[0] == 'module' and imp[1] == mod.name
+                return False
+            shadow = tname in f.params or any(isinstance(n, ast.Name) and n.id == tname and isinstance(n.ctx, ast.Store) for n in own_nodes(f.node))
+            aliases = {n.targets[0].id for n in own_nodes(f.node) if isinstance(n, ast.Assign) and len(n.targets) == 1
+                       and isinstance(n.targets[0], ast.Name) and refers(n.value)}
+
+            def is_container(e):
+                return (refers(e) and not (shadow and isinstance(e, ast.Name))) or (isinstance(e, ast.Name) and e.id in aliases)
             for n in own_nodes(f.node):
-                if isinstance(n, ast.Call) and isinstance(n.func, ast.Attribute) and n.func.attr in (
-                        'append', 'extend', 'insert', 'pop', 'remove', 'clear', 'update', 'setdefault', 'sort', 'reverse') \
-                        and isinstance(n.func.value, ast.Attribute) and n.func.value.attr == tname:
+                if isinstance(n, ast.Call) and isinstance(n.func, ast.Attribute) and n.func.attr in MUT and is_container(n.func.value):
                     muts.append(f'{f.short}:{n.lineno}')
                 if isinstance(n, (ast.Assign, ast.AugAssign, ast.Delete)):
                     tg = n.targets if isinstance(n, (ast.Assign, ast.Delete)) else [n.target]
                     for t in tg:
-                        if isinstance(t, ast.Subscript) and isinstance(t.value, ast.Attribute) and t.value.attr == tname:
+                        if isinstance(t, ast.Subscript) and is_container(t.value):
+                            muts.append(f'{f.short}:{n.lineno}')
+                        if isinstance(n, ast.AugAssign) and isinstance(t, ast.Name) and t.id in aliases:
+                            muts.append(f'{f.short}:{n.lineno}')
+        ctx.ob('R20.4', f'module-container:{mod.name}.{tname}', loc, f'module-level container {mod.name}.{tname} is never mutated by the package', not muts,
+               f'mutated at {muts}: the object is created once at import and shared by every call and thread')
+    if isinstance(v, (ast.List, ast.Dict, ast.Set)) and cls is not None:
+        # class-level mutable container: must never be mutated through the attribute
+        muts = []
+        MUT = ('append', 'extend', 'insert', 'pop', 'remove', 'clear', 'update', 'setdefault', 'sort', 'reverse', 'add', 'discard', 'popitem')
+        for f in repo.funcs.values():
+            # locals bound to the container (types = self._NAME_TTYPES): mutating the alias mutates the shared object
+            aliases = {n.targets[0].id for n in own_nodes(f.node) if isinstance(n, ast.Assign) and len(n.targets) == 1
+                       and isinstance(n.targets[0], ast.Name) and isinstance(n.value, ast.Attribute) and n.value.attr == tname}
+
+            def is_container(e):
+                return (isinstance(e, ast.Attribute) and e.attr == tname) or (isinstance(e, ast.Name) and e.id in aliases)
+            for n in own_nodes(f.node):
+                if isinstance(n, ast.Call) and isinstance(n.func, ast.Attribute) and n.func.attr in MUT and is_container(n.func.value):
+                    muts.append(f'{f.short}:{n.lineno}')
+                if isinstance(n, (ast.Assign, ast.AugAssign, ast.Delete)):
+                    tg = n.targets if isinstance(n, (ast.Assign, ast.Delete)) else [n.target]
+                    for t in tg:
+                        if isinstance(t, ast.Subscript) and is_container(t.value):
+                            muts.append(f'{f.short}:{n.lineno}')
+                        if isinstance(n, ast.AugAssign) and is_container(t):
+                            # `x += [...]` extends a list in place
                             muts.append(f'{f.short}:{n.lineno}')
         ctx.ob('R20.4', f'class-container:{cls.name}.{tname}', loc, f'class-level container {cls.name}.{tname} is never mutated', not muts,
                f'mutated at {muts}: shared by all instances and threads')
